@@ -226,6 +226,13 @@ def handmade_corpus() -> list[tuple[bytes, bytes]]:
         out.append((build_body([(b"a", None, None, b"v1"), (b"a", None, None, b""), (b"f", b"n.txt", b"text/plain", b"l1\r\nl2\r\n")],
                                bnd, pre=b"preamble\r\nmore", epi=b"epilogue"), bnd))
         out.append((build_body([(b"f", b"x", None, None), (b"g", b"y", None, b"\r\n")], bnd, lead=True), bnd))
+        # long preamble (longer than a header block + boundary + the decoder's search window), text fields
+        # with multi-byte UTF-8 (the form parser decodes fields), transport padding free
+        utext = "h\u00e9llo w\u00f6rld \u20ac \U0001f600 \u4e2d\u6587".encode()
+        out.append((build_body([(b"a", None, None, utext), (b"b", None, None, utext * 3), (b"f", b"n.txt", b"text/plain", utext)],
+                               bnd, pre=b"This is a multi-part message in MIME format. " * 3 + b"\r\nsecond preamble line", epi=b""), bnd))
+        out.append((build_body([(b"a", None, None, b"v"), (b"b", None, None, b"w")], bnd, pre=b"p" * (90 + len(bnd)), lead=True), bnd))
+        out.append((build_body([(b"a", None, None, utext[:7])], bnd, pre=b"x\r\n" * 30, lead=True), bnd))
         for lb, other in ((b"\n", b"\r"), (b"\r", b"\n")):
             for pl in (b"", b"x", lb, lb + lb, b"--", look[:-1], b"ab" + lb + b"cd", b"q" * 20 + lb):
                 out.append((build_body([(b"a", None, None, pl), (b"b", b"f", None, pl + b"z")], bnd, lb=lb, lead=False), bnd))
@@ -240,6 +247,7 @@ def random_body(rng: random.Random) -> tuple[bytes, bytes]:
         bnd = bnd[:-1] + b"x"
     look = b"--" + bnd
     atoms = [b"\r", b"\n", b"\r\n", b"-", b"--", look[: max(1, len(look) - 1)], look + b"x", b"x", b"yy", b"\x00", b"\xff",
+             "\u00e9".encode(), "\u20ac".encode(), "\U0001f600".encode(),
              b"z" * rng.randint(1, 2 * len(look) + 4), b" ", b"\t"]
     style = rng.choice([b"\r\n"] * 4 + [b"\n", b"\r"])
     parts = []
@@ -256,7 +264,7 @@ def random_body(rng: random.Random) -> tuple[bytes, bytes]:
                       rng.choice([b"f.txt", b"", "ü.bin".encode()]) if is_file else None,
                       rng.choice([None, b"text/plain", b"application/octet-stream"]) if is_file else None,
                       payload))
-    pre = rng.choice([b"", b"", b"pre", b"pre\r\n"])
+    pre = rng.choice([b"", b"", b"pre", b"pre\r\n", b"long preamble " * rng.randint(3, 12), b"l1\r\n" * rng.randint(5, 40)])
     epi = rng.choice([b"", b"", b"epi"])
     lead = True if pre else rng.random() < 0.5
     return build_body(parts, bnd, lb=style, pre=pre, epi=epi, lead=lead), bnd
